@@ -936,7 +936,7 @@ def replay_tokenizer(ctx, cands):
                 expv2 = [v for k, v in exp2 if k == 'value']
                 if got2 != expv2 or str(r2['result']).startswith(('err', 'panic')):
                     bad = True; c.replay = {'stdin_bytes': repr(ext), 'expected_values': expv2, 'actual_rows': got2, 'result': r2['result']}; break
-        c.status = 'reproduced' if bad else ('unit' if c.family in ('tok.consumed', 'tok.location', 'tok.progress', 'tok.garbage', 'tok.end') else 'not-reproduced')
+        c.status = 'reproduced' if bad else ('unit' if c.family in ('tok.consumed', 'tok.location', 'tok.progress', 'tok.garbage', 'tok.end', 'tok.io_error') else 'not-reproduced')
 
 
 # ---------------------------------------------------------------- translator self-check (DESIGN 2.4)
